@@ -71,7 +71,8 @@ pub fn c17(log: &mut Log, seed: u64, tier: &str) {
 /// Every boundary code point inserted into / substituted in / appended to a few short queries.
 fn c17_codepoints(log: &mut Log) {
     let n = ALPHABET3.len();
-    let queries: Vec<Vec<usize>> = vec![vec![], vec![1], vec![1, 2], vec![1, 2, 1], vec![6], vec![1, 7], vec![20, 1]];
+    // (queries that themselves contain boundary code points, U+0000 among them)
+    let queries: Vec<Vec<usize>> = vec![vec![], vec![1], vec![1, 2], vec![1, 2, 1], vec![6], vec![1, 7], vec![20, 1], vec![3], vec![1, 3, 2], vec![26, 1], vec![3, 3]];
     for q in &queries {
         for d in 0..=2u32 {
             let lev = match guard(|| Levenshtein::new(&text(q), d)) {
